@@ -254,11 +254,11 @@ def build(params):
 
         return Harness(args, pre, case, fuel=200)
 
-    def case2(qe0, qe1):
+    def case2(qe0, qe1, ps0, ps1):
         R, GA = M["R"], M["GA"]
         calls = []
-        recs = [(lambda i=i, qe=qe: GA.Alignment("r%d" % i, 100000, 0, qe, "+", ">a", 100000, 0, 5, 1, 2, 60, True, "5=", tags={"cg:Z:": "5="}))
-                for i, qe in enumerate((qe0, qe1))]
+        recs = [(lambda i=i, qe=qe, ps=ps: GA.Alignment("r%d" % i, 100000, 0, qe, "+", ">a", 100000, ps, ps + 5, 1, 2, 60, True, "5=", tags={"cg:Z:": "5="}))
+                for i, (qe, ps) in enumerate(((qe0, ps0), (qe1, ps1)))]
         install(R, GA, recs, make_aligner([(0, 5)], calls), calls)
         e = stubs.env()
         out = stubs.vp_open("o.gaf", "w")
@@ -270,9 +270,19 @@ def build(params):
         want = (0 if qe0 > 60000 else 1) + (0 if qe1 > 60000 else 1)
         if n_aligned != want:
             return "%d records realigned, %d have at most 60000 read bases" % (n_aligned, want)
+        # every realigned record is aligned against ITS OWN slice of the path and of its own read
+        refs = [c[1] for c in calls if c[0] == "ref"]
+        qs = [c[1] for c in calls if c[0] == "query"]
+        exp = [(i, ps) for i, (qe, ps) in enumerate(((qe0, ps0), (qe1, ps1))) if not (qe > 60000)]
+        for (i, ps), r, q in zip(exp, refs, qs):
+            if not isinstance(r, Slice) or not (r.a == ps and r.b == ps + 5):
+                return "record r%d aligned against a path slice that is not [path_start:path_end] of that record" % i
+            if not isinstance(q, Slice) or q.what != "read:r%d" % i:
+                return "record r%d aligned with the read of another record" % i
         return None
 
-    return Harness([("qe0", "int"), ("qe1", "int")], ["0 <= qe0 <= 100000 and 0 <= qe1 <= 100000"], case2, fuel=200)
+    return Harness([("qe0", "int"), ("qe1", "int"), ("ps0", "int"), ("ps1", "int")],
+                   ["0 <= qe0 <= 100000 and 0 <= qe1 <= 100000 and 0 <= ps0 <= 1000 and 0 <= ps1 <= 1000"], case2, fuel=200)
 
 
 def replay(params, model, wd):
